@@ -120,7 +120,7 @@ fn random_case(s: &str) -> String {
 
 pub async fn scenario() {
 	let entry = *rt::pick("entry", &[Entry::Tower, Entry::Tower, Entry::LowLevel]);
-	let frag = if rt::chance("frag", 1, 2) { Frag { short: true, latency_ms: 3 } } else { Frag::default() };
+	let frag = if rt::chance("frag", 1, 2) { Frag { short: true, latency_ms: 3, cap: 0 } } else { Frag::default() };
 	let mut world = World::new(SrvCfg { entry, frag, ..Default::default() });
 	let n_reqs = rt::draw_range("n_reqs", 1, 4);
 	let over_stream = rt::chance("over_stream", 1, 3);
